@@ -246,8 +246,19 @@ def c_fbinop(eng, f, ins):
             fr.regs[dst] = z3.fpToIEEEBV(r)
     return run
 
+def _fptoui64_site(f, ins):
+    """ordinal of this float -> unsigned 64-bit conversion among those of its function (identifies the source site: x86-64 has no such
+    instruction before AVX-512, every compiler emits its own sequence, and the sequences disagree on operands >= 2^64)"""
+    k = 0
+    for b in f.blocks.values():
+        for i in b.instrs:
+            if i is ins: return k
+            if i.op == 'fptoui' and getattr(i.ty, 'bits', 0) == 64: k += 1
+    return k
+
 def c_cast(eng, f, ins):
     a = getter(eng, ins.args[0]); dst = ins.dst; op = ins.op; to = ins.ty; frm = ins.extra
+    site64 = _fptoui64_site(f, ins) if op == 'fptoui' and getattr(to, 'bits', 0) == 64 else None
     def run(eng, st, fr, work):
         x = a(fr)
         if op in ('bitcast', 'ptrtoint', 'inttoptr', 'addrspacecast'):
@@ -267,14 +278,16 @@ def c_cast(eng, f, ins):
                 lo, hi = (-(1 << (to.bits - 1)), (1 << (to.bits - 1)) - 1) if op == 'fptosi' else (0, (1 << to.bits) - 1)
                 if v != v or v == math.inf or v == -math.inf or not (lo - 1 < v < hi + 1):
                     st.events.append(('fp-to-int-out-of-range', f.name, ins.line.strip()[:80]))
+                    if site64 is not None and v == v and v >= 2.0 ** 64: st.events.append(('fptoui64-beyond-range', f.name, site64, True))
                     # x86-64 cvttsd2si: "integer indefinite"
                     r = 1 << (to.bits - 1) if to.bits in (32, 64) else 0
                     if op == 'fptoui' and to.bits == 64 and v == v and v >= 2 ** 63 and v < 2 ** 64: r = int(v)
                     if op == 'fptoui' and to.bits == 64 and v == v and -(2 ** 63) < v < 0: r = int(v) & ((1 << 64) - 1)     # signed cvttss2si result reinterpreted
                 else:
                     r = int(v) & ((1 << to.bits) - 1)
-            elif op == 'fpext': r = f_to_bits(bits_to_f(x, 32), 64) if (x & 0x7f800000) != 0x7f800000 or not (x & 0x7fffff) else ((x >> 31) << 63) | (0x7ff << 52) | ((x & 0x7fffff) << 29)
-            elif op == 'fptrunc': r = f_to_bits(bits_to_f(x, 64), 32)
+            # NaNs: x86-64 cvtss2sd / cvtsd2ss keep sign and payload and SET the quiet bit (a signalling NaN comes out quiet)
+            elif op == 'fpext': r = f_to_bits(bits_to_f(x, 32), 64) if (x & 0x7f800000) != 0x7f800000 or not (x & 0x7fffff) else ((x >> 31) << 63) | (0x7ff << 52) | (1 << 51) | ((x & 0x3fffff) << 29)
+            elif op == 'fptrunc': r = f_to_bits(bits_to_f(x, 64), 32) if (x >> 52) & 0x7ff != 0x7ff or not (x & ((1 << 52) - 1)) else ((x >> 63) << 31) | 0x7f800000 | 0x400000 | ((x >> 29) & 0x3fffff)
             else: raise Unsupported(op)
             fr.regs[dst] = r
         else:
@@ -282,8 +295,17 @@ def c_cast(eng, f, ins):
                 r = z3.Extract(to.bits - 1, 0, x) if to.bits > 1 else (z3.Extract(0, 0, x) == 1)
             elif op == 'zext': r = z3.ZeroExt(to.bits - frm.bits, tobv(x, frm.bits))
             elif op == 'sext': r = z3.SignExt(to.bits - frm.bits, tobv(x, frm.bits))
-            elif op == 'fpext': r = z3.fpToIEEEBV(z3.fpFPToFP(z3.RNE(), tofp(x, 32), z3.Float64()))
-            elif op == 'fptrunc': r = z3.fpToIEEEBV(z3.fpFPToFP(z3.RNE(), tofp(x, 64), z3.Float32()))
+            elif op == 'fpext':
+                # SMT-LIB has one NaN; the machine keeps sign and payload and sets the quiet bit (x86-64 cvtss2sd)
+                xb = tobv(x, 32)
+                isnan = z3.And(z3.Extract(30, 23, xb) == 0xff, z3.Extract(22, 0, xb) != 0)
+                nanbits = z3.Concat(z3.Extract(31, 31, xb), z3.BitVecVal(0x7ff, 11), z3.BitVecVal(1, 1), z3.Extract(21, 0, xb), z3.BitVecVal(0, 29))
+                r = z3.If(isnan, nanbits, z3.fpToIEEEBV(z3.fpFPToFP(z3.RNE(), tofp(x, 32), z3.Float64())))
+            elif op == 'fptrunc':
+                xb = tobv(x, 64)
+                isnan = z3.And(z3.Extract(62, 52, xb) == 0x7ff, z3.Extract(51, 0, xb) != 0)
+                nanbits = z3.Concat(z3.Extract(63, 63, xb), z3.BitVecVal(0xff, 8), z3.BitVecVal(1, 1), z3.Extract(50, 29, xb))
+                r = z3.If(isnan, nanbits, z3.fpToIEEEBV(z3.fpFPToFP(z3.RNE(), tofp(x, 64), z3.Float32())))
             elif op in ('fptosi', 'fptoui'):
                 # SMT-LIB leaves out-of-range / NaN conversions unspecified; the machine does not: x86-64 "integer indefinite"
                 X = tofp(x, frm.bits); S_ = fpsort(frm.bits); nb = to.bits
@@ -299,6 +321,8 @@ def c_cast(eng, f, ins):
                         r = z3.If(in_s, sv, indef)
                 else:
                     hi2 = z3.FPVal(2.0 ** 64, S_)
+                    if getattr(eng, 'track_fptoui64', False):
+                        st.events.append(('fptoui64-beyond-range', f.name, site64, z3.And(z3.Not(z3.fpIsNaN(X)), z3.fpGEQ(X, hi2))))
                     r = z3.If(in_s, sv, z3.If(z3.And(z3.Not(z3.fpIsNaN(X)), z3.fpGEQ(X, hi), z3.fpLT(X, hi2)), z3.fpToUBV(z3.RTZ(), X, z3.BitVecSort(nb)), indef))
             elif op == 'uitofp': r = z3.fpToIEEEBV(z3.fpToFPUnsigned(z3.RNE(), tobv(x, frm.bits), fpsort(to.bits)))
             elif op == 'sitofp': r = z3.fpToIEEEBV(z3.fpToFP(z3.RNE(), tobv(x, frm.bits), fpsort(to.bits)))
